@@ -1,7 +1,28 @@
 import os
+import re
 
 import lib
-from lib import TieCheck, build_harness, sh, go_env, REPO, COQ
+from lib import TieCheck, build_harness, sh, go_env, REPO, COQ, Lock
+
+
+def broken_lemmas(log):
+    """'File "./BridgeLogger.v", line 57' -> 'BridgeLogger.v: gen_logger_return_eq (line 57)'."""
+    out = []
+    for m in re.finditer(r'File "\./([A-Za-z0-9_]+\.v)", line (\d+)', log):
+        f, ln = m.group(1), int(m.group(2))
+        try:
+            src = open(os.path.join(COQ, "C20", f)).read().splitlines()[:ln]
+        except OSError:
+            continue
+        name = None
+        for line in src:
+            mm = re.match(r"\s*(?:Lemma|Theorem|Corollary|Example|Fact|Definition|Fixpoint)\s+([A-Za-z0-9_']+)", line)
+            if mm:
+                name = mm.group(1)
+        item = "%s: %s (line %d)" % (f, name, ln)
+        if item not in out:
+            out.append(item)
+    return out
 
 
 class C20(TieCheck):
@@ -10,8 +31,16 @@ class C20(TieCheck):
     props = "Props_C20.v"
     gentie = "C20"
     harness = "c20"
+    # the check's own theorems and the correspondence are built without the tie-A files of the middleware
+    # (LogSem / GenLogger / BridgeLogger / Props_GenLogger): a broken tie is reported as such (gen) and the
+    # cases are still evaluated
+    coq_targets = ["Corr.vo"]
+    # tie A for the middleware (docs/GenC20.md): the handler closure of LoggerWithHandler regenerated from the
+    # tree under test, proved equal to Logger.logger for all inputs
+    extra_props = [("C20", "Props_GenLogger.v")]
     extra_trust = [
         "tie A: harness/cmd/c20gen translates func level (logger.go) into coq/C20/GenFuns.v on every run (tiny Go subset: tagless switch over integer comparisons returning slog.Level constants; anything else is refused)",
+        "tie A: harness/cmd/loggen translates the handler closure of LoggerWithHandler (logger.go) statement by statement into coq/C20/GenLogger.v on every run; coq/C20/BridgeLogger.v proves Logger.logger / emit / assemble equal to it for all inputs; trusted: loggen itself and the primitives of coq/C20/LogSem.v (docs/GenC20.md)",
         "model: coq/C20/Logger.v transliterates LoggerWithHandler (logger.go:16-73), the recorder fields it reads (response_writer.go) and the resolver selection of Context.ClientIP / WithClientIPResolver; spec: coq/C20/Spec.v",
         "harness projections: slog level/message/attribute kinds (duration value dropped), underlying-writer digest equality with a Logger-less twin router, Go-side identity check of the panic value",
     ]
@@ -21,23 +50,55 @@ class C20(TieCheck):
         "Location is read from the response header map as the handler left it (a Location set after the status line is logged although it is never sent; see docs/C20.md)",
     ]
 
+    _orig_build = None
+
     def gen(self, tier):
         g, lg = build_harness("c20gen")
         if g is None:
-            return False, "c20gen does not build:\n" + lg
-        rc, o = sh([g, "repo=" + os.path.abspath(REPO), "out=" + os.path.join(COQ, "C20", "GenFuns.v")], env=go_env())
-        return rc == 0, o
+            ok1, o1 = False, "c20gen does not build:\n" + lg
+        else:
+            rc, o1 = sh([g, "repo=" + os.path.abspath(REPO), "out=" + os.path.join(COQ, "C20", "GenFuns.v")], env=go_env())
+            ok1 = rc == 0
+        ok2, o2 = self.gen_logger()
+        return ok1 and ok2, o1 + "\n" + o2
+
+    def gen_logger(self):
+        """tie A for the middleware: loggen rewrites coq/C20/GenLogger.v from the tree under test, then
+        BridgeLogger.v / Props_GenLogger.v are rebuilt.  A refusal or a bridge lemma that no longer compiles
+        is a broken tie; the lemma is named."""
+        exe, o = build_harness("loggen")
+        if exe is None:
+            return False, "loggen build failed:\n" + o[-2000:]
+        with Lock("coq.C20"):
+            rc, og = sh([exe, "repo=" + os.path.abspath(lib.REPO), "out=" + os.path.join(COQ, "C20", "GenLogger.v")],
+                        env=go_env(), timeout=300)
+        refused = "\n".join(l for l in og.splitlines() if "REFUSED" in l)
+        okb, lb = (self._orig_build or lib.coq_build)("C20", targets=["Props_GenLogger.vo"])
+        if rc == 0 and okb:
+            return True, og
+        bl = broken_lemmas(lb) if not okb else []
+        named = ("broken bridge lemma: " + ", ".join(bl)) if bl else ""
+        k = lb.find('File "./')
+        # lib prints the first 1500 characters of a problem: keep the closing "==>" lines inside
+        n = 250 if refused else 850
+        err = "" if okb else (lb[k:k + n] if k >= 0 else lb[-n:])
+        head = "tie A (loggen, docs/GenC20.md): the handler closure of LoggerWithHandler in %s is no longer proved equal to coq/C20/Logger.v" % lib.REPO
+        msg = "\n".join(x for x in [head, refused[:400], named, err, ("==> " + named) if named else "", ("==> " + refused[:300]) if refused else ""] if x)
+        return False, msg
 
     def run(self, tier, seed, replay=None):
         # A broken proof must not prevent the case files from being evaluated (they only need
         # the model, Corr.vo): when the area does not build completely, build Corr.vo alone and
         # let TieCheck go on; the broken proof is then reported by its proof-obligation step
         # (coqc Props_*.v fails) and a concrete failing input is still searched for.
+        # (Not for the tie-A target Props_GenLogger.vo: a broken tie stays a reported build problem.)
         orig = lib.coq_build
+        self._orig_build = orig
 
         def build(area, *a, **kw):
             ok, lg = orig(area, *a, **kw)
-            if not ok and area == self.area:
+            tie = "Props_GenLogger.vo" in (kw.get("targets") or [])
+            if not ok and area == self.area and not tie:
                 with lib.Lock("coq." + area):
                     rc, _ = sh(["make", "Corr.vo"], cwd=os.path.join(COQ, area), timeout=1500)
                 if rc == 0:
@@ -50,6 +111,7 @@ class C20(TieCheck):
             return super().run(tier, seed, replay)
         finally:
             lib.coq_build = orig
+            self._orig_build = None
 
 
 CHECK = C20()
